@@ -27,7 +27,7 @@ import (
 )
 
 func TestMain(m *testing.M) {
-	vstat.Rule("Raw TCP backend script: any status 200-999, 0-8 end-to-end headers (repeated names), body 0..1 MiB with Content-Length or chunked framing with generated chunk sizes and flush points; fault = one of {connection refused, close before any byte, RST before any byte, partial head then close, garbage head, status code below 100, full head + partial body then close/RST (Content-Length and chunked), never answer (transport ResponseHeaderTimeout), client cancels while the backend holds}. Proxy = StateListener(forward.New(..)), driven in-process (with the server context key present so that an aborted body copy panics as under a real server) and behind httptest.Server with a raw client. The fault x method table is enumerated completely in every run on top of the generated cases. Oracle: no fault => client status, end-to-end header values and body bytes equal the script's; refused/closed/reset before any byte => 502; header timeout => 504; cancellation => 499; partial/garbage head => 500 or 502; abort during body copy => truncated exchange, proxy survives and serves the next request; in all cases the listener saw exactly [connected, disconnected] with the same URL and the exchange terminated. Non-trivial: fault after the response head, or a chunked body > 32 KiB with >= 2 flushes, or cancellation.")
+	vstat.Rule("Raw TCP backend script: any status 200-999, 0-8 end-to-end headers (repeated names), body 0..1 MiB with Content-Length or chunked framing with generated chunk sizes and flush points; fault = one of {connection refused, close before any byte, RST before any byte, partial head then close, garbage head, status code below 100, full head + partial body then close/RST (Content-Length and chunked), never answer (transport ResponseHeaderTimeout), client cancels while the backend holds}. Proxy = StateListener(forward.New(..)), driven in-process (with the server context key present so that an aborted body copy panics as under a real server) and behind httptest.Server with a raw client. The fault x method table is enumerated completely in every run on top of the generated cases. Oracle: no fault => client status, end-to-end header values and body bytes equal the script's; refused/closed/reset before any byte => 502; header timeout => 504; cancellation => 499; partial/garbage head => 500 or 502; abort during body copy => truncated exchange, proxy survives and serves the next request; in all cases the listener saw exactly [connected, disconnected] with the same URL and the exchange terminated. Non-trivial: fault after the response head, or a chunked body > 32 KiB with >= 2 flushes, or cancellation. Later additions: header values with tab, UTF-8 and Latin-1 bytes; 0-2 '103 Early Hints' responses before the final one; the forwarder behind trace or a never-tripping breaker (response-writer wrapper in between); 17-40 overlapping exchanges through one forwarder; for the RST-during-body fault the proxy's own 502/500 page is accepted (a reset destroys unread bytes of the head).")
 	log.SetOutput(io.Discard) // httputil.ReverseProxy logs every aborted copy
 	vstat.Main(m.Run)
 }
